@@ -40,6 +40,12 @@ def f8_predicate(case):
 
 def energies_of(case, n):
     rng = np.random.default_rng(case["e_seed"])
+    if case.get("e_ramp"):
+        # a smooth landscape: the energy falls (or rises) from shell to shell by e_ramp kJ/mol, so neighbouring cells differ by
+        # less than the cap while the global span is thousands of kJ/mol (a repulsive wall)
+        n_pos = case["n_o"] * len(case["radii"])
+        shell = (np.arange(n) // case["n_b"]) // case["n_o"]
+        return case["e_ramp"] * shell.astype(float) + rng.standard_normal(n) * min(case["e_sigma"], 6.0) + case["e_shift"]
     e = rng.standard_normal(n) * case["e_sigma"]
     # all differences stay clearly below the documented 500 kJ/mol cap
     span = e.max() - e.min() if n else 0.0
@@ -234,6 +240,12 @@ def _shard(arg):
         n_t = draw(st.integers(2, 4))
         if n_b * n_o == 1:
             n_t = max(n_t, 3)
+        ramp = None
+        if draw(st.integers(0, 5)) == 0:
+            n_t = draw(st.integers(8, 14))          # many shells with a radial energy ramp
+            n_o = min(n_o, 12)
+            n_b = 1 if n_b == 1 else min(n_b, 5)
+            ramp = draw(st.sampled_from([-400.0, 350.0, 120.0]))
         while n_b * n_o * n_t > 600:
             if n_t > 2:
                 n_t -= 1
@@ -247,7 +259,8 @@ def _shard(arg):
                 "factor": draw(st.sampled_from([2.0, 1.0, 0.5, 3.0, 4.0])), "cartesian": cart,
                 "e_seed": draw(st.integers(0, 10 ** 6)), "e_sigma": draw(st.sampled_from([0.0, 0.5, 2.0, 6.0, 6.0, 60.0, 200.0])),
                 "e_shift": draw(st.sampled_from([0.0, -250.0, 40.0])),
-                "T": draw(st.sampled_from([150.0, 200.0, 273.15, 300.0, 400.0])), "D": draw(st.sampled_from([0.1, 1.0, 10.0]))}
+                "T": draw(st.sampled_from([150.0, 200.0, 273.15, 300.0, 400.0])), "D": draw(st.sampled_from([0.1, 1.0, 10.0])),
+                "e_ramp": ramp}
 
     def builder(res, fail):
         @given(cases())
@@ -258,7 +271,8 @@ def _shard(arg):
                      nontrivial=case["n_b"] >= 4 and case["e_sigma"] > 0 and "skipped" not in info, key=case,
                      classes=[f"b={case['b_alg'] if case['n_b'] > 1 else 'zero4D'}", "cartesian" if case["cartesian"] else "spherical"]
                      + (["arpack_inconclusive"] if info.get("arpack_inconclusive") else [])
-                     + (["skipped_" + info["skipped"]] if "skipped" in info else []))
+                     + (["skipped_" + info["skipped"]] if "skipped" in info else [])
+                     + (["radial_energy_ramp_many_shells"] if case.get("e_ramp") else []))
             if info.get("f15_regular_mode_missing_eigenvalue"):
                 k15 = [k for k in load_known("C14") if k["id"] == "F15"]
                 if k15:
@@ -278,7 +292,7 @@ def _shard(arg):
 
 def replay(case):
     case = {k: v for k, v in case.items() if k in ("b_alg", "n_b", "o_alg", "n_o", "radii", "factor", "cartesian", "e_seed",
-                                                   "e_sigma", "e_shift", "T", "D")}
+                                                   "e_sigma", "e_shift", "T", "D", "e_ramp")}
     if f8_predicate(case) is not None:
         return []
     return judge(case)[0]
